@@ -182,8 +182,21 @@ def clientById (c : Cache) (now : Nat) (sid : Str) (answer : ServerAnswer)
     | .broken => (c1.invalidate e.id, .resumeFailed e.id)
     | .other _ => (c1, .resumeFailed e.id)
 
-/-- `storeClientSession` after a full handshake (fix D7: under the handshake's own tag) -/
+/-- `SessionCache.forget`: the entry filed under an identifier, if any, and every command mapping
+    that leads to the identifier (also when no entry is left: `lookupNonExpired` deletes an expired
+    entry but not its mappings) -/
+def Cache.forget (c : Cache) (id : Str) : Cache :=
+  { sessions := c.sessions.filter (fun p => p.1 ≠ id), cmdMap := c.cmdMap.filter (fun p => p.2 ≠ id) }
+
+/-- `storeClientSession` after a full handshake (fix D7: under the handshake's own tag).
+    The identifier `e.id` is the SERVER's choice. fix D20: whatever the cache holds under it — an
+    entry, or mappings made for another tag or server — is dropped before the session is filed. -/
 def clientStore (c : Cache) (tag addr : Str) (e : Entry) : Cache :=
+  let e' := { e with tag := tag, addr := addr }
+  e'.validCommands.foldl (fun acc cmd => if cmd = [] then acc else acc.mapCommand tag addr cmd e'.id) ((c.forget e'.id).store e')
+
+/-- `storeClientSession` as it was before fix D20 (kept for the theorem that it breaks the routes) -/
+def clientStoreLegacy (c : Cache) (tag addr : Str) (e : Entry) : Cache :=
   let e' := { e with tag := tag, addr := addr }
   e'.validCommands.foldl (fun acc cmd => if cmd = [] then acc else acc.mapCommand tag addr cmd e'.id) (c.store e')
 
